@@ -110,7 +110,7 @@ theorem grows_evalInt (ops : CacheOps κ) (p : Profile) (g : Graph) (fuel : Nat)
       cases nd with
       | port => exact grows_fail _
       | command _ _ => exact grows_fail _
-      | integer pv => exact ih pv
+      | integer pv _ => exact ih pv
       | reg r =>
         dsimp only
         cases r.kind with
